@@ -1,6 +1,7 @@
 package main
 
 import (
+	"encoding/binary"
 	"errors"
 	"fmt"
 	"os"
@@ -26,6 +27,36 @@ type mFault struct {
 	Input  int    `json:"input"`  // index of the failing input iterator (-1 none)
 	InPos  int    `json:"inpos"`  // it fails at its InPos-th Next (0 based)
 	OutPos int    `json:"outpos"` // the writer fails at its OutPos-th WriteNext (-1 none)
+	Cut    bool   `json:"cut"`    // instead of an injected error: the input's data file ends in front of its InPos-th record (record boundary)
+}
+
+// start offsets of the records of a v4 RecordIO file (independent walk over the framing) followed by the file size
+func recordStarts(data []byte) []int {
+	var starts []int
+	if len(data) < 8 {
+		return []int{len(data)}
+	}
+	compressed := binary.LittleEndian.Uint32(data[4:8]) != 0
+	for off := 8; off < len(data); {
+		hl := headerLen(data[off:])
+		if hl == 0 {
+			break
+		}
+		_, k := binary.Uvarint(data[off:])
+		isNil := data[off+k] == 1
+		ulen, k2 := binary.Uvarint(data[off+k+1:])
+		clen, _ := binary.Uvarint(data[off+k+1+k2:])
+		stored := int(ulen)
+		if compressed {
+			stored = int(clen)
+		}
+		if isNil {
+			stored = 0
+		}
+		starts = append(starts, off)
+		off += hl + stored
+	}
+	return append(starts, len(data))
 }
 
 type mergeIn struct {
@@ -241,6 +272,8 @@ func runMerge(args []string) error {
 
 		for fi, f := range c.Faults {
 			hit := false
+			cutOpenErr := ""
+			var cutReaders []sstables.SSTableReaderI
 			var its []sstables.SSTableMergeIteratorContext
 			var plain []sstables.SSTableIteratorI
 			for i, rd := range readers {
@@ -249,7 +282,35 @@ func runMerge(args []string) error {
 					return err
 				}
 				var it sstables.SSTableIteratorI = sc
-				if f.Input == i {
+				if f.Input == i && f.Cut {
+					// the same table with its data file cut at a record boundary, opened without the load-time validation
+					cdir := filepath.Join(base, fmt.Sprintf("cut%d", fi))
+					if err := copyTree(filepath.Join(base, fmt.Sprintf("t%d", i)), cdir); err != nil {
+						return err
+					}
+					dp := filepath.Join(cdir, sstables.DataFileName)
+					data, err := os.ReadFile(dp)
+					if err != nil {
+						return err
+					}
+					if starts := recordStarts(data); f.InPos < len(starts)-1 {
+						if err := os.Truncate(dp, int64(starts[f.InPos])); err != nil {
+							return err
+						}
+						hit = true
+					}
+					crd, err := openReaderSafe(sstables.ReadBasePath(cdir), sstables.ReadWithKeyComparator(cmp), sstables.SkipHashCheckOnLoad())
+					if err != nil {
+						cutOpenErr = "err:open:" + err.Error()
+					} else {
+						cutReaders = append(cutReaders, crd)
+						if csc, err := crd.Scan(); err != nil {
+							cutOpenErr = "err:scan:" + err.Error()
+						} else {
+							it = csc
+						}
+					}
+				} else if f.Input == i {
 					it = &failingIter{inner: sc, at: f.InPos, hit: &hit}
 				}
 				its = append(its, sstables.NewMergeIteratorContext(i, it))
@@ -299,7 +360,13 @@ func runMerge(args []string) error {
 				out, oerr = readTable(dir)
 				os.RemoveAll(dir)
 			}
-			tr.emit(M{"t": "merged", "kind": f.Kind, "input": f.Input, "inpos": f.InPos, "outpos": f.OutPos, "hit": hit,
+			if cutOpenErr != "" && merr == "" {
+				merr = cutOpenErr // the damaged input was already refused when it was opened / scanned
+			}
+			for _, crd := range cutReaders {
+				crd.Close()
+			}
+			tr.emit(M{"t": "merged", "kind": f.Kind, "input": f.Input, "inpos": f.InPos, "outpos": f.OutPos, "hit": hit, "cut": f.Cut,
 				"err": merr, "out": out, "readerr": oerr})
 		}
 		for _, rd := range readers {
